@@ -20,33 +20,36 @@ var intrinsics map[string]intrinsic
 
 func init() {
 	intrinsics = map[string]intrinsic{
-		symPath + ".Int":        symInt(64),
-		symPath + ".Int32":      symInt(32),
-		symPath + ".Byte":       symInt(8),
-		symPath + ".Bool":       symInt(0),
-		symPath + ".Bytes":      symBytes,
-		symPath + ".String":     symString,
-		symPath + ".Choose":     symChoose,
-		symPath + ".Assume":     symAssume,
-		symPath + ".Assert":     symAssert,
-		symPath + ".Cover":      symCover,
-		symPath + ".Cut":        symCut,
-		symPath + ".Observe":    symObserve,
-		symPath + ".And":        symAnd,
-		symPath + ".Or":         symOr,
-		symPath + ".Not":        symNot,
-		symPath + ".Implies":    symImplies,
-		symPath + ".Ite":        symIte,
-		symPath + ".IteByte":    symIte,
-		symPath + ".EqStr":      symEqStr,
-		symPath + ".Concrete":   symConcrete,
-		symPath + ".Symbolic":   func(p *Path, _ *frame, _ *ssa.Function, _ []Value) Value { return p.st().True },
-		symPath + ".IsConcrete": symIsConcrete,
-		symPath + ".Fork":       symFork,
-		symPath + ".Param":      symParam,
+		symPath + ".Int":           symInt(64),
+		symPath + ".Int32":         symInt(32),
+		symPath + ".Byte":          symInt(8),
+		symPath + ".Bool":          symInt(0),
+		symPath + ".Bytes":         symBytes,
+		symPath + ".String":        symString,
+		symPath + ".Choose":        symChoose,
+		symPath + ".Assume":        symAssume,
+		symPath + ".Assert":        symAssert,
+		symPath + ".Cover":         symCover,
+		symPath + ".Cut":           symCut,
+		symPath + ".Observe":       symObserve,
+		symPath + ".And":           symAnd,
+		symPath + ".Or":            symOr,
+		symPath + ".Not":           symNot,
+		symPath + ".Implies":       symImplies,
+		symPath + ".Ite":           symIte,
+		symPath + ".IteByte":       symIte,
+		symPath + ".EqStr":         symEqStr,
+		symPath + ".Concrete":      symConcrete,
+		symPath + ".Symbolic":      func(p *Path, _ *frame, _ *ssa.Function, _ []Value) Value { return p.st().True },
+		symPath + ".IsConcrete":    symIsConcrete,
+		symPath + ".Fork":          symFork,
+		symPath + ".Param":         symParam,
+		symPath + ".Freeze":        symFreeze,
+		symPath + ".FreezeGlobals": symFreezeGlobals,
 
 		"(*strings.Builder).WriteString": sbWriteString,
 		"(*strings.Builder).WriteByte":   sbWriteByte,
+		"(*strings.Builder).Write":       sbWrite,
 		"(*strings.Builder).WriteRune":   sbWriteRune,
 		"(*strings.Builder).String":      sbString,
 		"(*strings.Builder).Len":         sbLen,
@@ -223,6 +226,26 @@ func symIsConcrete(p *Path, _ *frame, _ *ssa.Function, args []Value) Value {
 	return p.st().Bool(t.op == OpConst)
 }
 
+// Freeze(what, x): everything reachable from x must not be written from now on.
+func symFreeze(p *Path, _ *frame, _ *ssa.Function, args []Value) Value {
+	p.freeze(args[1], argStr(args[0]), map[interface{}]bool{})
+	return nil
+}
+
+// FreezeGlobals(): package-level variables of the code under test (and what
+// they reach) must not be written from now on.
+func symFreezeGlobals(p *Path, _ *frame, _ *ssa.Function, _ []Value) Value {
+	seen := map[interface{}]bool{}
+	p.globalsFrozen = true
+	for g, c := range p.globals {
+		if g.Pkg == nil || strings.Contains(g.Pkg.Pkg.Path(), "/zzverif") || strings.HasPrefix(g.Name(), "zz") || strings.HasPrefix(g.Name(), "init$") {
+			continue
+		}
+		p.freeze(c, "package-level "+g.Pkg.Pkg.Name()+"."+g.Name(), seen)
+	}
+	return nil
+}
+
 func symParam(p *Path, _ *frame, _ *ssa.Function, args []Value) Value {
 	name := argStr(args[0])
 	if v, ok := p.w.eng.params[name]; ok {
@@ -260,6 +283,16 @@ func sbWriteString(p *Path, _ *frame, _ *ssa.Function, args []Value) Value {
 	s := args[1].(Str)
 	sbAppend(p, args[0], s.b...)
 	return Tuple{p.st().Const(64, uint64(len(s.b))), Iface{}}
+}
+
+func sbWrite(p *Path, _ *frame, _ *ssa.Function, args []Value) Value {
+	s, _ := args[1].(Slice)
+	bs := make([]*Term, len(s))
+	for i, v := range s {
+		bs[i] = v.(*Term)
+	}
+	sbAppend(p, args[0], bs...)
+	return Tuple{p.st().Const(64, uint64(len(bs))), Iface{}}
 }
 
 func sbWriteByte(p *Path, _ *frame, _ *ssa.Function, args []Value) Value {
